@@ -118,14 +118,31 @@ func liquibaseRead(b string) (cmds []string, rb [][]string, now string, ok bool)
 		}
 		var cmd []string
 		var rbs []string
+		// liquibase joins the consecutive "--rollback" lines of a changeset into one script and
+		// splits it at the ";" that end a line
+		var script []string
+		live := false
 		for _, l := range rest {
 			if strings.HasPrefix(l, "--rollback: ") {
-				rbs = append(rbs, strings.TrimSuffix(strings.TrimPrefix(l, "--rollback: "), ";"))
-			} else if len(rbs) == 0 {
+				script = append(script, strings.TrimPrefix(l, "--rollback: "))
+			} else if len(script) == 0 {
 				cmd = append(cmd, l)
 			} else if l != "" {
 				// live text after the first rollback line: not part of any rollback comment
-				rbs = append(rbs, "\x00LIVE:"+l)
+				script = append(script, "\x00LIVE:"+l)
+				live = true
+			}
+		}
+		_ = live
+		cur := ""
+		for i, l := range script {
+			if cur != "" {
+				cur += "\n"
+			}
+			cur += l
+			if strings.HasSuffix(l, ";") || i == len(script)-1 {
+				rbs = append(rbs, strings.TrimSuffix(cur, ";"))
+				cur = ""
 			}
 		}
 		c := strings.Join(cmd, "\n")
@@ -182,7 +199,18 @@ func checkPlan(w *out.W, d dplan) {
 		if err != nil {
 			okCase = false
 		}
-		revs = append(revs, r)
+		// the harness's own reading of Change.Reverse (string | []string | nil)
+		var own []string
+		switch v := c.Reverse.(type) {
+		case string:
+			own = []string{v}
+		case []string:
+			own = v
+		}
+		if !eqStrs(own, r) {
+			w.Violation(d.id, "reversestmts-mismatch", fmt.Sprintf("Change.ReverseStmts() = %q but Change.Reverse holds %q: %s", r, own, d.desc))
+		}
+		revs = append(revs, own)
 		if len(r) == 0 {
 			all = false
 		}
